@@ -179,6 +179,13 @@ class TrS:
                 v = "d_%d" % self.fresh
                 self.hoist.append("let %s ← PyOps.dictGet %s %s" % (v, x, i))
                 return v, 'str'
+            if tx == 'strlist' and ti == 'int':
+                if self.lazy_depth:
+                    raise Untranslatable("l[i] under a lazily evaluated operator")
+                self.fresh += 1
+                v = "e_%d" % self.fresh
+                self.hoist.append("let %s ← PyOps.indexL %s %s" % (v, x, i))
+                return v, 'str'
             if tx == 'str' and ti == 'int':
                 if self.lazy_depth:
                     raise Untranslatable("x[i] under a lazily evaluated operator")
@@ -507,6 +514,8 @@ class TrS:
                 return "pure none"
             if ret == 'optstr':
                 return "pure none"          # a function that falls off its end returns None
+            if ret == 'unit':
+                return "pure ()"
             if ret == 'int':
                 self.assumptions.add("a function used as an int that falls off its end returns None; the generated function raises TypeError there "
                                      "(what the first arithmetic use of the result does in the caller)")
@@ -613,6 +622,25 @@ class TrS:
             self.uses_float = True
             self.assumptions.add("float(tok) is the parameter floatOf: none = ValueError, some b = (the value % 1.0 == 0)")
             return self.flush("pure ((floatOf %s).isSome)" % e)
+        if isinstance(s, ast.Expr) and isinstance(s.value, ast.Call) and not in_loop:
+            e, t = self.expr(s.value)
+            if t != 'unit':
+                raise Untranslatable("call statement of a function that returns a value")
+            return self.flush("") + self.block(tail, ret, in_loop)
+        if isinstance(s, ast.Assign) and len(s.targets) == 1 and not tail and not in_loop and ret == 'strpair' and isinstance(s.targets[0], ast.Subscript) \
+                and isinstance(s.targets[0].value, ast.Attribute) and isinstance(s.targets[0].value.value, ast.Name) and s.targets[0].value.value.id == 'self' \
+                and self.env.get('self.' + s.targets[0].value.attr) == 'strdict':
+            # the method's effect `self.d[k] = v` as its last statement: the function returns the update (k, v), the caller's glue applies it
+            (k_, tk), (v_, tv) = self.expr(s.targets[0].slice), self.expr(s.value)
+            if tk == tv == 'str':
+                self.assumptions.add("a method ending in `self.<dict>[k] = v` is modelled as returning the update (k, v)")
+                return self.flush("pure (%s, %s)" % (k_, v_))
+        if isinstance(s, ast.Assign) and len(s.targets) == 1 and not tail and not in_loop and ret == 'str' and isinstance(s.targets[0], ast.Attribute) \
+                and isinstance(s.targets[0].value, ast.Name) and s.targets[0].value.id == 'self' and ('self.' + s.targets[0].attr) in self.env:
+            e, t = self.expr(s.value)      # the method's effect `self.a = v` as its last statement: the function returns v
+            if t == 'str':
+                self.assumptions.add("a method ending in `self.<attribute> = v` is modelled as returning v")
+                return self.flush("pure %s" % e)
         if isinstance(s, ast.Break) and is_while(in_loop):
             return "pure (PyOps.Ctl.brk %s)" % in_loop[1]
         if isinstance(s, ast.Continue) and is_while(in_loop):
@@ -734,11 +762,35 @@ class TrS:
         raise Untranslatable("stmt " + ast.dump(s)[:120])
 
 
-LEAN_TY = {'optstrint': 'Option (List Char × Int)', 'obj': 'PyOps.Obj', 'strpair': 'List Char × List Char', 'str': 'List Char', 'int': 'Int', 'bool': 'Bool', 'optstr': 'Option (List Char)', 'optint': 'Option Int', 'char': 'Char', 'matchpos': 'Int',
+LEAN_TY = {'unit': 'Unit', 'optstrint': 'Option (List Char × Int)', 'obj': 'PyOps.Obj', 'strpair': 'List Char × List Char', 'str': 'List Char', 'int': 'Int', 'bool': 'Bool', 'optstr': 'Option (List Char)', 'optint': 'Option Int', 'char': 'Char', 'matchpos': 'Int',
            'strlist': 'List (List Char)', 'strdict': 'List (List Char × List Char)'}
 
 
+LEAN_RESERVED = {'prefix', 'infix', 'infixl', 'infixr', 'postfix', 'notation', 'at', 'from', 'fun', 'do', 'then', 'else', 'if', 'let', 'have', 'show', 'match',
+                 'with', 'end', 'open', 'in', 'by', 'where', 'instance', 'class', 'structure', 'def', 'theorem', 'namespace', 'section', 'variable',
+                 'universe', 'import', 'export', 'deriving', 'mutual', 'macro', 'syntax', 'local', 'private', 'protected', 'partial', 'unsafe',
+                 'noncomputable', 'abbrev', 'example', 'axiom', 'opaque', 'inductive', 'extends', 'for', 'unless', 'return', 'try', 'catch', 'finally',
+                 'break', 'continue', 'nomatch', 'nofun', 'using', 'calc', 'suffices', 'obtain', 'set_option', 'attribute', 'Type', 'Prop', 'Sort',
+                 'mut', 'rec', 'termination_by', 'decreasing_by', 'true', 'false', 'none', 'some', 'pure', 'bind', 'fuel', 'resolve', 'floatOf'}
+
+
+class _Rename(ast.NodeTransformer):
+    """Python variables whose names are Lean keywords (or names the generated code uses itself) get a suffix"""
+    def visit_Name(self, n):
+        if n.id in LEAN_RESERVED:
+            return ast.copy_location(ast.Name(id=n.id + "_py", ctx=n.ctx), n)
+        return n
+
+    def visit_arg(self, n):
+        if n.arg in LEAN_RESERVED:
+            n.arg = n.arg + "_py"
+        return n
+
+
 def translate(out, report, assumptions, lean_name, fn, param_types, ret, consts, skip=('self',)):
+    import copy
+    fn = _Rename().visit(copy.deepcopy(fn))
+    param_types = {(k + "_py" if k in LEAN_RESERVED else k): v for k, v in param_types.items()}
     params = [(a.arg, param_types.get(a.arg)) for a in fn.args.args if a.arg not in skip]
     selfattrs = [(k, t) for k, t in param_types.items() if k.startswith('self.')]
     try:
